@@ -6,6 +6,7 @@ import (
 	"math/big"
 
 	"github.com/zenon-network/go-zenon/common/types"
+	"github.com/zenon-network/go-zenon/vm/constants"
 	"github.com/zenon-network/go-zenon/vm/embedded/definition"
 )
 
@@ -113,4 +114,56 @@ func VerifC01TokenSupply() {
 			verifAssert(after.IsMintable || after.MaxSupply.Cmp(after.TotalSupply) == 0, "turning minting off freezes max supply at the total")
 		}
 	}
+}
+
+// VerifC01TokenIssue: one IssueToken step of the token contract (arbitrary supplies, flags, decimals; text fields
+// fixed to valid strings) on a state that may already hold a token under the id the new one would get: an applied
+// issue creates a record with 0 <= total <= max <= 2^255-1 (total = max unless mintable), owned by the issuer, and
+// puts exactly `total` of the new token into circulation (one send to the issuer, the contract keeps none); the fee
+// of 1 ZNN stays on the contract; an id that is taken is refused; a failed call changes nothing and is refunded.
+func VerifC01TokenIssue() {
+	e := c09NewEnv(types.TokenContract)
+	total, max := c01Amount("issue.TotalSupply"), c01Amount("issue.MaxSupply")
+	mintable, burnable, utility := verifNondetBool("issue.IsMintable"), verifNondetBool("issue.IsBurnable"), verifNondetBool("issue.IsUtility")
+	data := definition.ABIToken.PackMethodPanic(definition.IssueMethodName, "name", "SYM", "", total, max, verifNondetU8("issue.Decimals"), mintable, burnable, utility)
+	e.c09Send(data, []types.ZenonTokenStandard{types.ZnnTokenStandard, types.QsrTokenStandard}[verifNondetLen("token sent (0 znn, 1 qsr)", 0, 1)])
+	zts := types.NewZenonTokenStandard(e.send.Hash.Bytes())
+	verifAssume(zts != types.ZnnTokenStandard && zts != types.QsrTokenStandard && zts != types.ZeroTokenStandard, "a hash-derived token id does not collide with the fixed native ids (collision freedom)")
+	taken := verifNondetBool("a token with the new id already exists")
+	if taken {
+		old := &definition.TokenInfo{TokenName: "t", TokenSymbol: "T", Decimals: 8, TotalSupply: big.NewInt(5), MaxSupply: big.NewInt(5), TokenStandard: zts}
+		old.Owner[0] = types.UserAddrByte
+		verifAssert(old.Save(e.storage()) == nil, "save")
+	}
+	bz := c01Amount("contract znn")
+	verifAssume(bz.Cmp(c10Lim) < 0, "balance far below 2^255")
+	verifAssert(e.as.SetBalance(types.ZnnTokenStandard, bz) == nil, "set")
+	if !e.sendAccepted() {
+		verifReach("refused at send time", true)
+		return
+	}
+	verifAssert(e.send.TokenStandard == types.ZnnTokenStandard && e.send.Amount.Cmp(constants.TokenIssueAmount) == 0, "an accepted issue pays exactly the 1 ZNN fee")
+	o := e.receive()
+	e.c09CheckWrapper(o, nil, 0)
+	if o.panicked || o.block == nil {
+		return
+	}
+	rec, err := definition.GetTokenInfo(e.storage(), zts)
+	if o.methodErr != nil {
+		verifReach("issue failed", true)
+		verifAssert(taken, "an accepted issue fails only because the id is taken")
+		verifAssert(err == nil && rec.TotalSupply.Cmp(big.NewInt(5)) == 0, "a failed issue leaves the existing record untouched")
+		verifAssert(c09Bal(e.as, types.ZnnTokenStandard).Cmp(bz) == 0, "a failed issue refunds the fee (contract balance unchanged)")
+		return
+	}
+	verifReach("issued", true)
+	verifAssert(!taken, "an id that is taken is refused")
+	verifAssert(err == nil && rec.Owner == e.send.Address && rec.TokenStandard == zts, "the new token belongs to the issuer")
+	verifAssert(rec.TotalSupply.Cmp(total) == 0 && rec.MaxSupply.Cmp(max) == 0 && rec.TotalSupply.Sign() >= 0 && rec.TotalSupply.Cmp(rec.MaxSupply) <= 0 && rec.MaxSupply.Cmp(c01P255m1) <= 0 && rec.MaxSupply.Sign() > 0, "0 <= total <= max <= 2^255-1, max > 0")
+	verifAssert(rec.IsMintable == mintable && (mintable || rec.TotalSupply.Cmp(rec.MaxSupply) == 0), "non-mintable tokens are issued with total = max")
+	verifAssert(rec.Decimals <= 18, "at most 18 decimals")
+	d := o.block.DescendantBlocks
+	verifAssert(len(d) == 1 && d[0].ToAddress == e.send.Address && d[0].TokenStandard == zts && d[0].Amount.Cmp(total) == 0, "exactly the total supply is sent to the issuer")
+	verifAssert(c09Bal(e.as, zts).Sign() == 0, "the contract keeps none of the new token: circulation = recorded supply")
+	verifAssert(c09Bal(e.as, types.ZnnTokenStandard).Cmp(new(big.Int).Add(bz, constants.TokenIssueAmount)) == 0, "the fee stays on the contract: ZNN is neither created nor destroyed")
 }
